@@ -48,6 +48,8 @@ def run(ck):
     ck.trusted += ['Coq 8.16.1 kernel + vm_compute', 'real-number axioms (kernel scale-invariance theorems)', 'float64 distance recomputation in the harness']
     ck.assumptions += ['torch.median returns the lower median', 'tolerances: bandwidth 1e-9 relative (light kernel 2e-6), rescaled predictions 2e-6 relative']
     ck.check_theorems()
+    from harness import bwops
+    bwops.check_translation(ck)
     rng = np.random.default_rng(ck.seed + 1919)
     kernels = [('l2', {}), ('l2_high_dim', {}), ('l1', {}), ('lpq', dict(norm_p=1.5))]
     T = lambda a: torch.tensor(a, dtype=torch.float64)
